@@ -741,6 +741,36 @@ class Run:
                 continue
             reach = g.reach(starts, cut=cut)
             bad = sinks & reach
+            if bad:
+                # refinement: a variable that holds a guard's verdict on one path and a constant on another (`let e = if start { start().err() }
+                # else { None }`) decides nothing by itself ("mixed").  But a path that avoids every accepting edge found so far stays inside
+                # `reach`; a definition in a block outside it cannot be what such a path reads.  Re-run the guards with those definitions
+                # ignored, until nothing changes.  Sound: the new edges are real decisions on every path that has not crossed an earlier one.
+                import flow as _flow
+                allb = {b["id"] for b in body.blocks if not b["cleanup"]}
+                for _round in range(3):
+                    dead = allb - reach
+                    if not dead:
+                        break
+                    _flow.DEAD_BLOCKS[id(body)] = dead
+                    try:
+                        extra = set()
+                        for gd in group:
+                            try:
+                                _n, acc2, _r = gd.edges(body)
+                            except Exception:
+                                acc2 = set()
+                            extra |= {e for e in acc2 if e[0] in reach}
+                    finally:
+                        _flow.DEAD_BLOCKS.pop(id(body), None)
+                    if extra <= cut:
+                        break
+                    cut |= extra
+                    reach = g.reach(starts, cut=cut)
+                    bad = sinks & reach
+                    details.append({"guard": label, "refined_over_dead_definitions": len(dead)})
+                    if not bad:
+                        break
             details.append({"guard": label, "sites": nsites, "accept_edges": len(cut)})
             if per_iteration and not bad:
                 # the guard must be re-evaluated on every cycle through the sink (loop bodies)
